@@ -234,7 +234,9 @@ MANIFEST = dict(
          'operation p) with j a symbolic file length; FileStorage recovery (read_index/_truncate) is executed by '
          'CrossHair on the image, so every byte position of every cut write falls in some explored path region; '
          'durability is checked by letting the crash instant run up to the next fsync.  The outcome is compared '
-         'with a prefix of the model history through every revision query and an independent file parser.',
+         'with a prefix of the model history through every revision query and an independent file parser.  Symbolic fault injection (index of the failing '
+         'operation) covers the exits of two-phase commit through a failure: failing vote, failing finish (status byte write / '
+         'flush / fsync: the commit must not return normally), failing abort, raising finish callback.',
     note='crash model = prefix of issue order + torn last write (no reordering of un-fsynced writes); history templates; '
          'cut placed in the last 2 (quick) / 4 (thorough) transactions; recording phase runs concretely.',
     design_ref='DESIGN.md section 4, C01',
